@@ -48,7 +48,10 @@ pub fn crypto_main(rest: &[String]) -> i32 {
     for c in &cases {
         let members = c["members"].as_array().unwrap();
         let sigbits: Vec<usize> = if members.iter().any(|m| m["c"] == "sigbit") {
-            if allbits { (0..512).collect() } else { (0..reps * 4).map(|_| rng.below(512)).collect() }
+            // the sample always contains the ends of both halves of the signature (the top bits of `s` make it unparseable)
+            if allbits { (0..512).collect() } else { [0usize, 255, 256, 509, 510, 511].iter().cloned().chain((0..reps * 4).map(|_| rng.below(512))).collect() }
+        } else if members.iter().any(|m| m["c"] == "keybit") {
+            if allbits { (0..256).collect() } else { [0usize, 7, 255].iter().cloned().chain((0..reps * 4).map(|_| rng.below(256))).collect() }
         } else {
             (0..reps).collect()
         };
@@ -67,6 +70,11 @@ pub fn crypto_main(rest: &[String]) -> i32 {
                         Some(s) => (*pk, s),
                         None => (*pk, Signature::default()),
                     },
+                    "keybit" => {
+                        let mut k = *pk;
+                        k.0[(bit / 8) % 32] ^= 1 << (bit % 8);
+                        (k, Signature::new(&d, sk))
+                    }
                     other => panic!("unknown corruption {}", other),
                 };
                 votes.push(entry);
